@@ -162,6 +162,14 @@ func c02Strata() []*gast.Grammar {
 		mk(r("S", gast.C(gast.S(gast.Lab("a", gast.Ref("B")), gast.L("!"), gast.A(gast.Star(gast.Dot()), 1, mon.Spec{})), gast.S(gast.Lab("a", gast.Ref("B")), gast.L("?"), gast.Lab("b", gast.Ref("T")), gast.A(gast.Star(gast.Dot()), 2, mon.Spec{})))),
 			r("B", gast.A(gast.S(gast.Plus(gast.Cl(gast.Chars("xé"))), gast.L("\n"), gast.Star(gast.Cl(gast.Chars("é世")))), 3, mon.Spec{})),
 			r("T", gast.A(gast.Plus(gast.Cl(gast.Chars("zé\n"))), 4, mon.Spec{}))),
+		// predicates whose block returns an error next to its boolean: the boolean alone decides
+		mk(r("S", gast.Star(gast.C(gast.A(gast.S(gast.AndC(4, mon.Spec{E: 1}), gast.L("a")), 1, mon.Spec{}), gast.A(gast.S(gast.NotC(5, mon.Spec{E: 1}), gast.L("b")), 2, mon.Spec{}),
+			gast.A(gast.S(gast.NotC(6, mon.Spec{E: 1, B: 1}), gast.AndC(7, mon.Spec{E: 3, B: 1}), gast.L("c")), 8, mon.Spec{}), gast.A(gast.Dot(), 3, mon.Spec{}))))),
+		// a label of the enclosing sequence is used again inside the last (and inside a middle)
+		// alternative of a choice that stands directly in that sequence
+		mk(r("S", gast.Star(gast.Ref("E"))),
+			r("E", gast.A(gast.S(gast.Lab("a", gast.Ref("W")), gast.C(gast.L(";"), gast.A(gast.S(gast.L(":"), gast.Lab("a", gast.Plus(gast.Cl(gast.Chars("01")))), gast.L(";")), 5, mon.Spec{}), gast.A(gast.S(gast.L("="), gast.Lab("a", gast.Plus(gast.Cl(gast.Chars("01")))), gast.L(";")), 2, mon.Spec{})), gast.AndC(4, mon.Spec{})), 1, mon.Spec{})),
+			r("W", gast.A(gast.Plus(gast.Cl(gast.Chars("ab"))), 3, mon.Spec{R: 2}))),
 	}...)
 }
 
@@ -667,6 +675,14 @@ func c14Strata() []*gast.Grammar {
 			r("Skip", act(gast.S(gast.NotE(gast.L(";")), gast.Dot(), gast.C(gast.AndE(gast.L(";")), gast.AndE(gast.Cl(gast.Chars("ab"))), gast.Thr("L1"))), 3))),
 		mk(r("S", gast.Rec(gast.Rec(gast.S(gast.L("<"), gast.Ref("B"), gast.L(">")), act(gast.S(gast.Cl(gast.Chars("0")), gast.Thr("L1")), 1), "L1"), act(gast.Star(gast.Cl(&gast.ClassSpec{Chars: []rune(">"), Inverted: true})), 2), "L1")),
 			r("B", gast.C(gast.Plus(gast.L("a")), gast.Thr("L1")))),
+		// a recovery expression that throws a second label: it fails where no operator for that label
+		// is in force, and must be tried again when the same throw is reached at the same offset
+		// inside an operator that lists it
+		mk(r("S", gast.C(gast.Ref("A1"), gast.Ref("A2"), gast.Star(gast.Dot()))),
+			r("A1", gast.Rec(gast.S(gast.Ref("T"), gast.L("!")), gast.Ref("R"), "L1")),
+			r("A2", gast.Rec(gast.Rec(gast.S(gast.Ref("T"), gast.L("?")), gast.Ref("R"), "L1"), act(gast.Dot(), 1), "L2")),
+			r("T", act(gast.S(gast.L("<"), gast.Lab("v", gast.C(gast.Cl(gast.Chars("ab")), gast.Thr("L1")))), 2)),
+			r("R", gast.C(act(gast.L("~"), 3), gast.Thr("L2")))),
 		// throw inside repetition and predicate
 		mk(r("S", gast.Rec(gast.S(gast.Star(gast.C(gast.L("a"), gast.S(gast.AndE(gast.L("b")), gast.Thr("L2")))), gast.NotE(gast.Thr("L1")), gast.Star(gast.Dot())), act(gast.L("b"), 1), "L1", "L2"))),
 	}
